@@ -357,6 +357,13 @@ impl<D: DataMut> ReaderFrom for VecZnx<D> {
             ));
         }
 
+        if new_size > new_max_size {
+            return Err(std::io::Error::new(
+                std::io::ErrorKind::InvalidData,
+                format!("VecZnx metadata inconsistent: size={new_size} > max_size={new_max_size}"),
+            ));
+        }
+
         let buf: &mut [u8] = self.data.as_mut();
         if buf.len() < len {
             return Err(std::io::Error::new(
@@ -364,13 +371,23 @@ impl<D: DataMut> ReaderFrom for VecZnx<D> {
                 format!("VecZnx buffer too small: self.data.len()={} < read len={len}", buf.len()),
             ));
         }
+
+        // The sender's limb capacity may exceed what this receiver's buffer can hold:
+        // never announce more limbs than `buf` backs.
+        let limb_bytes: usize = new_n * new_cols * size_of::<i64>();
+        let max_size: usize = if limb_bytes == 0 {
+            new_max_size
+        } else {
+            new_max_size.min(buf.len() / limb_bytes)
+        };
+
         reader.read_exact(&mut buf[..len])?;
 
         // Only commit metadata after successful read.
         self.n = new_n;
         self.cols = new_cols;
         self.size = new_size;
-        self.max_size = new_max_size;
+        self.max_size = max_size;
         Ok(())
     }
 }
